@@ -15,6 +15,10 @@ are fewer), ref -1 = a never-issued id, a STRING ref = that literal string as se
 issued: "", "%s", …).  ["X", None] calls cleanup_expired() with its default max_age (read from
 the signature).  ["C", client, version, metadata] passes the optional metadata argument.
 ["R", ref, None, id] dispatches a message WITHOUT a method (a response-shaped message).
+["R", ref, method, id, env] chooses the envelope: "legacy" (the unified JSONRPCMessage, default), "typed" (JSONRPCRequest /
+JSONRPCNotification / JSONRPCResponse), "parse" (parse_message); ["I", ref, spec, id, env] likewise.
+["S", k] is random.seed(k): the application (a tool, a handler) re-seeds the process-wide generator between two operations.
+The generator's state is saved before the case and restored after it.
 ["B", n, client, version] is n consecutive create_session(client, version) calls reported as ONE step (large stores).
 ["I", ref, spec, None] is an initialize WITHOUT id (the session it leaves behind is found by comparing
 list_sessions() before and after).  case["supply"] = [k, …] replaces the id supply: the session manager
@@ -193,12 +197,30 @@ def run_case(case):
     mirror operation (create / initialize / update / delete / cleanup(0) / clear on its own manager)."""
     from .dispatch_h import debug_logging
 
+    import random
+
     restore = debug_logging() if case.get("debug") else None
+    rstate = random.getstate()
     try:
         return _run_case(case)
     finally:
+        random.setstate(rstate)
         if restore:
             restore()
+
+
+def envelope(msg, env):
+    from chuk_mcp.protocol.messages import json_rpc_message as J
+
+    if env == "parse":
+        return J.parse_message(dict(msg))
+    if env == "typed":
+        if "method" not in msg:
+            return J.JSONRPCResponse(jsonrpc="2.0", id=msg.get("id", 0), result=msg.get("result", {}))
+        if "id" in msg:
+            return J.JSONRPCRequest(jsonrpc="2.0", id=msg["id"], method=msg["method"], params=msg.get("params"))
+        return J.JSONRPCNotification(jsonrpc="2.0", method=msg["method"], params=msg.get("params"))
+    return J.JSONRPCMessage.model_validate(dict(msg))
 
 
 def _mirror(twin, code, now):
@@ -293,6 +315,11 @@ def _run_case(case):
                 if code == "T":
                     clock.now += int(op[1])
                     st = {"now": clock.now, "out": ["tick"]}
+                elif code == "S":
+                    import random
+
+                    random.seed(op[1])
+                    st["out"] = ["tick"]
                 elif code == "C":
                     if len(op) > 3:
                         sid = mgr.create_session(copy.deepcopy(op[1]), op[2], copy.deepcopy(op[3]))
@@ -366,10 +393,12 @@ def _run_case(case):
                             params["protocolVersion"] = spec["version"]
                         msg["params"] = params
                     ckey = json.dumps(msg, sort_keys=True)
+                    env = op[4] if len(op) > 4 else "legacy"
+                    ckey = env + ckey
                     if spec.get("reuse") and ckey in envelopes:
                         m = envelopes[ckey]  # the very same envelope object dispatched again
                     else:
-                        m = envelopes[ckey] = JSONRPCMessage.model_validate(msg)
+                        m = envelopes[ckey] = envelope(msg, env)
                     resp, new_sid = _loop().run_until_complete(handler.handle_message(m, resolve(op[1])))
                     rd = resp.model_dump(exclude_none=True) if resp is not None else None
                     st["resp_id"] = rd.get("id") if isinstance(rd, dict) else None
@@ -404,7 +433,7 @@ def _run_case(case):
                         msg["result"] = {}
                     if op[3] is not None:
                         msg["id"] = op[3]
-                    m = JSONRPCMessage.model_validate(msg)
+                    m = envelope(msg, op[4] if len(op) > 4 else "legacy")
                     resp, new_sid = _loop().run_until_complete(handler.handle_message(m, resolve(op[1])))
                     st["out"] = ["unit"]
                     rd = resp.model_dump(exclude_none=True) if resp is not None else None
@@ -451,7 +480,7 @@ def model_line(case, obs):
     issued = 0
     for op, st in zip(case["ops"], obs["steps"]):
         code, now = op[0], st["now"]
-        if code == "T":
+        if code in ("T", "S"):
             continue
         if code == "C":
             ops.append([now, "C", st["out"][1], op[1], op[2]])
@@ -507,7 +536,7 @@ def model_line(case, obs):
 
 
 def _no_model_op(op):
-    return op[0] == "T"
+    return op[0] in ("T", "S")
 
 
 def masked_ids(case, obs):
